@@ -165,7 +165,8 @@ def evaluate_C14(run, cases, bins=None):
     disagree = [j for j in cases if any(e.get("oracle_disagree") for e in j["enc"])]
     run.oblige("independent form/query encoder agrees with serde_urlencoded/serde_qs on every case", not disagree,
                json.dumps([j["desc"] for j in disagree[:3]])[:1500])
-    nsh = 16 if len(cases) > 200 else 4
+    # at most ~400 cases per coqc process (memory), at least 4 files; run_case_files runs 16 at a time
+    nsh = max(4, 16 if len(cases) > 200 else 4, (len(cases) + 399) // 400)
     sh = shards(cases, nsh)
     res = C.run_case_files("C14", [case_file(s) for s in sh])
     hist = collections.Counter(); sizes = collections.Counter(); opk = collections.Counter()
@@ -320,7 +321,7 @@ def evaluate_C11(run, cases):
     eqs = [j for j in cases if j["kind"] != "replay"]
     if not reps and not eqs:
         run.oblige("C11 cases produced", False, "no cases"); return
-    n = 16 if len(cases) > 400 else 4
+    n = max(16 if len(cases) > 400 else 4, (len(cases) + 399) // 400)
     texts = [c11_file(reps[i::n], eqs[i::n]) for i in range(n)]
     res = C.run_case_files("C11", texts)
     hist = collections.Counter(); opk = collections.Counter()
